@@ -52,7 +52,8 @@ def formula_status():
         d = {}
     try:
         o = json.load(open(os.path.join(LEAN, 'Decaf', 'Generated', 'OpForms.index.json')))
-        d['opforms'] = dict(status='translated %s operator forms %s' % (sum(o['counts'].values()), o['counts']),
+        d['opforms'] = dict(status='translated %s group operator forms %s and %s field operator forms %s'
+                                   % (sum(o['counts'].values()), o['counts'], sum(o.get('field_counts', {}).values()), o.get('field_counts', {})),
                             reason='; '.join(o['untranslated']) or None)
         if o['untranslated']:
             d['opforms']['status'] += '; %d outside the grammar (correspondence only): %s' % (len(o['untranslated']), '; '.join(o['untranslated'])[:300])
